@@ -103,7 +103,7 @@ fn enum_from(
 
             #[inline]
             fn from_str(src: &str) -> derive_more::core::result::Result<Self, derive_more::FromStrError> {
-                derive_more::core::result::Result::Ok(match src.to_lowercase().as_str() {
+                derive_more::core::result::Result::Ok(match derive_more::__private::to_lowercase(src).as_str() {
                     #(#cases)*
                     _ => return derive_more::core::result::Result::Err(
                         derive_more::FromStrError::new(#input_type_name),
